@@ -1,30 +1,46 @@
-// C16: numeric literals are read exactly: isIntString / isRealString / stringToRational (real code, header-inline)
+// C16: numeric literals are read exactly: isIntString / isRealString / stringToRational / normalize (real code, header-inline)
 #include "verif.h"
 #include <cstdlib>
 #include <cstring>
+#include <gmp.h>
 #include "common/StringConv.h"
 using namespace opensmt;
 
 #ifndef MAXLEN
 #define MAXLEN 5
 #endif
-static char cap[2 * MAXLEN + 8];
-static bool cap_neg;
-static int ncap;
-// GMP text interface of opensmt::normalize replaced by recorders: what is parsed, in which base, and whether it is negated
-static int cap_base;
+static bool isdig(char c) { return c >= '0' && c <= '9'; }
+
+// ---- GMP text interface of opensmt::normalize replaced by a recorder that parses, in ONE pass, the text handed to
+// mpq_set_str:  N  or  N/D  (digits only). GMP's base rule is part of the oracle: base 10 reads decimal; base 0
+// auto-detects and reads a component with a leading zero as octal/hex/binary.
+static int ncap, cap_base; static bool cap_neg, cap_ok, cap_leading_zero, cap_has_den, cap_den_is_pow10;
+static uint32_t cap_n, cap_d; static int cap_den_zeros, cap_len;
 extern "C" int stub_mpq_set_str(mpq_ptr, const char * flo, int base) {
-    int i = 0;
-    for (; flo[i] != '\0'; i++) { VASSERT(i < (int)sizeof(cap) - 1, "text handed to GMP longer than any possible conversion"); cap[i] = flo[i]; }
-    cap[i] = '\0';
-    cap_base = base;
-    ncap++;
+    ncap++; cap_base = base; cap_ok = true; cap_leading_zero = false; cap_has_den = false; cap_den_is_pow10 = true;
+    cap_n = 0; cap_d = 0; cap_den_zeros = 0;
+    int i = 0, start = 0;
+    for (; flo[i] != '\0'; i++) {
+        VASSERT(i < 2 * MAXLEN + 4, "text handed to GMP longer than any possible conversion");
+        char c = flo[i];
+        if (c == '/') { if (cap_has_den || i == start) cap_ok = false; cap_has_den = true; start = i + 1; continue; }
+        if (!isdig(c)) { cap_ok = false; continue; }
+        if (i == start && c == '0' && isdig(flo[i + 1])) cap_leading_zero = true;
+        if (!cap_has_den) cap_n = cap_n * 10 + (uint32_t)(c - '0');
+        else {
+            cap_d = cap_d * 10 + (uint32_t)(c - '0');
+            if (i == start) { if (c != '1') cap_den_is_pow10 = false; } else { if (c != '0') cap_den_is_pow10 = false; cap_den_zeros++; }
+        }
+    }
+    if (i == start) cap_ok = false;        // empty numerator or empty denominator
+    cap_len = i;
     return 0;
 }
 extern "C" void stub_mpq_neg(mpq_ptr, mpq_srcptr) { cap_neg = !cap_neg; }
 extern "C" void stub_mpq_unary(mpq_ptr) {}
 extern "C" int stub_gmp_asprintf(char ** out, const char *, ...) { *out = nullptr; return 0; }
-// the scratch buffer of stringToRational: fixed storage (a symbolic-size heap object is intractable), canary-checked
+extern "C" int stub_asprintf(char ** out, const char *, ...) { *out = nullptr; return 0; }
+// scratch buffer of stringToRational: fixed storage (a symbolic-size heap object is intractable), canary-checked
 #define C4 0x5A, 0x5A, 0x5A, 0x5A,
 static char scratch[16] = {C4 C4 C4 C4}; static unsigned long scratch_req; static int n_malloc;
 extern "C" void * stub_malloc(unsigned long n) {
@@ -34,91 +50,102 @@ extern "C" void * stub_malloc(unsigned long n) {
     return scratch;
 }
 extern "C" void stub_free(void *) {}
-// replacement for the exception's asprintf
-extern "C" int stub_asprintf(char ** out, const char *, ...) { *out = nullptr; return 0; }
-
-static bool isdig(char c) { return c >= '0' && c <= '9'; }
-
-// value of a digit string s[from..to) as integer (< 10^MAXLEN), false if empty or non-digit
-static bool digits_value(const char * s, int from, int to, uint32_t & v, int & ndig) {
-    v = 0; ndig = 0;
-    for (int i = from; i < to; i++) { if (!isdig(s[i])) return false; v = v * 10 + (uint32_t)(s[i] - '0'); ndig++; }
-    return true;
+static void check_scratch() {
+    if (n_malloc && scratch_req + 1 < sizeof(scratch)) { VASSERT(scratch[scratch_req] == 0x5A && scratch[scratch_req + 1] == 0x5A, "no write beyond the requested scratch buffer"); }
 }
-static uint32_t pow10(int k) { uint32_t r = 1; for (int i = 0; i < k; i++) r *= 10; return r; }
-// how GMP's mpq_set_str(.., base 0) reads one component: decimal only if it has no leading zero (else octal/hex/binary)
-static bool gmp_base0_decimal(const char * s, int from, int to) { return to - from == 1 || s[from] != '0'; }
+static bool read_as_decimal() { return cap_base == 10 || (cap_base == 0 && !cap_leading_zero); }
+
+static char digit() { char c = (char)nondet_u8(); VASSUME(c == '0' || c == '1' || c == '9'); return c; }
+
+// (A) every well-formed decimal  [-] d{0..2} [ . d{0..3} ]  with at least one digit denotes its exact value
+extern "C" void h_decimal_value() {
+    char s[8]; int p = 0;
+    bool neg = nondet_bool(); if (neg) s[p++] = '-';
+    int ni = nondet_u8(), nf = nondet_u8(); bool dot = nondet_bool();
+    VASSUME(ni >= 0 && ni <= 2 && nf >= 0 && nf <= 3 && ni + nf >= 1 && (dot || nf == 0));
+    uint32_t rn = 0;
+    for (int i = 0; i < 2; i++) if (i < ni) { char c = digit(); s[p++] = c; rn = rn * 10 + (uint32_t)(c - '0'); }
+    if (dot) s[p++] = '.';
+    for (int i = 0; i < 3; i++) if (i < nf) { char c = digit(); s[p++] = c; rn = rn * 10 + (uint32_t)(c - '0'); }
+    s[p] = '\0';
+    char * rat = nullptr; bool threw = false;
+    try { stringToRational(rat, s); } catch (strConvException const &) { threw = true; }
+    VASSERT(!threw, "a well-formed decimal literal is accepted");
+    if (threw) return;
+    VASSERT(ncap == 1 && cap_ok, "converted once, to digits or digits/digits");
+    VASSERT(read_as_decimal(), "GMP reads the converted text as decimal (base 10, or auto-detection without a leading zero)");
+    VASSERT(!cap_has_den || cap_den_is_pow10, "decimal literal becomes numerator / power of ten");
+    uint32_t l = cap_n, r = rn;           // cap_n / 10^zeros == rn / 10^nf  <=>  cap_n * 10^nf == rn * 10^zeros
+    int kc = cap_has_den ? cap_den_zeros : 0;
+    for (int i = 0; i < 4; i++) { if (i < nf) l = l * 10; if (i < kc) r = r * 10; }
+    VASSERT(kc <= 3 && l == r, "converted text denotes the literal's exact magnitude");
+    VASSERT(rn == 0 || cap_neg == neg, "sign is preserved");
+    check_scratch();
+    if (nf > 0 && s[p - 1] == '0') { VWITNESS("trailing-zero"); }
+    if (ni == 2 && s[neg ? 1 : 0] == '0') { VWITNESS("leading-zero"); }
+    VWITNESS("decimal");
+}
+
+// (B) fraction literals  [-] d{1..2} / d{1..2} : exact value, zero denominator rejected
+extern "C" void h_fraction_value() {
+    char s[8]; int p = 0;
+    bool neg = nondet_bool(); if (neg) s[p++] = '-';
+    int nn = nondet_u8(), nd = nondet_u8();
+    VASSUME(nn >= 1 && nn <= 2 && nd >= 1 && nd <= 2);
+    uint32_t rn = 0, rd = 0;
+    for (int i = 0; i < 2; i++) if (i < nn) { char c = digit(); s[p++] = c; rn = rn * 10 + (uint32_t)(c - '0'); }
+    s[p++] = '/';
+    for (int i = 0; i < 2; i++) if (i < nd) { char c = digit(); s[p++] = c; rd = rd * 10 + (uint32_t)(c - '0'); }
+    s[p] = '\0';
+    char * rat = nullptr; bool threw = false;
+    try { stringToRational(rat, s); } catch (strConvException const &) { threw = true; }
+    if (rd == 0) { VASSERT(threw && ncap == 0, "a fraction with zero denominator is rejected before it reaches GMP"); VWITNESS("zero-denominator"); return; }
+    VASSERT(!threw, "a well-formed fraction literal is accepted");
+    if (threw) return;
+    VASSERT(ncap == 1 && cap_ok && cap_has_den, "converted once, to digits/digits");
+    VASSERT(read_as_decimal(), "GMP reads the converted text as decimal (base 10, or auto-detection without a leading zero)");
+    VASSERT(cap_d != 0 && cap_n * rd == rn * cap_d, "converted text denotes the literal's exact magnitude");
+    VASSERT(rn == 0 || cap_neg == neg, "sign is preserved");
+    if (s[neg ? 1 : 0] == '0' && nn == 2) { VWITNESS("fraction-leading-zero"); }
+    VWITNESS("fraction");
+}
 
 static int symbolic_string(char * s) {
     int len = nondet_u8();
     VASSUME(len >= 0 && len <= MAXLEN);
     for (int i = 0; i < MAXLEN; i++) {
         char c = (char)nondet_u8();
-        // alphabet: digits 0 1 8 9, '-', '.', '/', a non-literal byte 'a' (other digits behave like 1/8/9, other bytes like 'a')
-        VASSUME(c == '0' || c == '1' || c == '8' || c == '9' || c == '-' || c == '.' || c == '/' || c == 'a');
+        // alphabet: digits 0 1 9, '-', '.', '/', a non-literal byte 'a' (other digits behave like 1/9, other bytes like 'a')
+        VASSUME(c == '0' || c == '1' || c == '9' || c == '-' || c == '.' || c == '/' || c == 'a');
         s[i] = c;
     }
     s[len] = '\0';
     return len;
 }
 
-extern "C" void h_string_to_rational() {
+// (C) arbitrary text: whatever stringToRational accepts is a numeric literal; everything else raises strConvException
+extern "C" void h_string_to_rational_any() {
     char s[MAXLEN + 1];
     int len = symbolic_string(s);
     VASSUME(len >= 1);
-    char * rat = nullptr;
-    bool threw = false;
+    char * rat = nullptr; bool threw = false;
     try { stringToRational(rat, s); } catch (strConvException const &) { threw = true; }
-    // reference reading of the input: [-] D* [. D*]   or   [-] D+ / D+
     int p = (s[0] == '-') ? 1 : 0;
-    int slash = -1, dot = -1; bool other = false;
-    for (int i = p; i < len; i++) {
+    int slash = -1, dot = -1, ndig = 0, ndig_after_slash = 0; bool other = false;
+    for (int i = p; i < MAXLEN; i++) if (i < len) {
         if (s[i] == '/') { if (slash < 0) slash = i; else other = true; }
         else if (s[i] == '.') { if (dot < 0) dot = i; else other = true; }
-        else if (!isdig(s[i])) other = true;
+        else if (isdig(s[i])) { ndig++; if (slash >= 0) ndig_after_slash++; }
+        else other = true;
     }
     if (!threw) {
         VWITNESS("accepted");
-        VASSERT(ncap == 1, "an accepted literal is converted exactly once");
-        VASSERT(!other, "accepted literal contains only sign, digits, one '.' or one '/'");
-        VASSERT(!(slash >= 0 && dot >= 0), "accepted literal does not mix '.' and '/'");
-        // parse the captured "N/D" or "N"
-        int clen = 0; while (cap[clen] != '\0') clen++;
-        int cs = -1; for (int i = 0; i < clen; i++) if (cap[i] == '/') { VASSERT(cs < 0, "one slash in normalized text"); cs = i; }
-        uint32_t cn = 0, cd = 1; int k1, k2;
-        bool okn = digits_value(cap, 0, cs < 0 ? clen : cs, cn, k1);
-        bool okd = cs < 0 ? true : digits_value(cap, cs + 1, clen, cd, k2);
-        VASSERT(okn && okd && k1 >= 1 && (cs < 0 || k2 >= 1), "text handed to GMP is digits[/digits]");
-        VASSERT(cap_base == 10 || (cap_base == 0 && gmp_base0_decimal(cap, 0, cs < 0 ? clen : cs) && (cs < 0 || gmp_base0_decimal(cap, cs + 1, clen))),
-                "GMP reads the text as decimal (base 10, or auto-detection without a leading zero)");
-        if (n_malloc && scratch_req + 1 < sizeof(scratch)) { VASSERT(scratch[scratch_req] == 0x5A && scratch[scratch_req + 1] == 0x5A, "no write beyond the requested scratch buffer"); }
-        VASSERT(cd != 0, "denominator handed to GMP is not zero");
-        // reference value
-        uint32_t rn = 0, rd = 1; bool rneg = (s[0] == '-');
-        if (slash >= 0) {
-            int a, b; bool o1 = digits_value(s, p, slash, rn, a); bool o2 = digits_value(s, slash + 1, len, rd, b);
-            VASSERT(o1 && o2 && a >= 1 && b >= 1, "accepted fraction has digits on both sides");
-        } else {
-            int a = 0, b = 0; uint32_t ip = 0, fp = 0;
-            bool o1 = digits_value(s, p, dot < 0 ? len : dot, ip, a);
-            bool o2 = dot < 0 ? true : digits_value(s, dot + 1, len, fp, b);
-            VASSERT(o1 && o2 && a + b >= 1, "accepted decimal has at least one digit");
-            rd = pow10(b); rn = ip * rd + fp;
-        }
-        if (slash >= 0) {
-            // fraction: numbers have at most MAXLEN-2 digits, products fit 32 bits
-            VASSERT(rd == 0 || cn * rd == rn * cd, "converted text denotes the literal's exact magnitude");
-        } else {
-            // decimal: both denominators are powers of ten; compare after scaling by repeated *10 (no multiplier circuit)
-            int kc = 0, kr = 0; uint32_t t = cd; bool pow = true;
-            for (int i = 0; i < MAXLEN + 1 && t > 1; i++) { if (t % 10 != 0) pow = false; t /= 10; kc++; }
-            t = rd; for (int i = 0; i < MAXLEN + 1 && t > 1; i++) { t /= 10; kr++; }
-            VASSERT(pow && t <= 1, "decimal literal is converted to numerator / power of ten");
-            uint32_t l = cn, r = rn;
-            for (int i = 0; i < MAXLEN + 1; i++) { if (i < kr) l = l * 10; if (i < kc) r = r * 10; }
-            VASSERT(l == r, "converted text denotes the literal's exact magnitude");
-        }
-        VASSERT(cn == 0 || cap_neg == rneg, "sign is preserved");
+        VASSERT(ncap == 1 && cap_ok, "an accepted literal is converted exactly once, to digits or digits/digits");
+        VASSERT(!other && !(slash >= 0 && dot >= 0) && ndig >= 1, "accepted text consists of a sign, digits and one '.' or one '/'");
+        VASSERT(slash < 0 || (ndig_after_slash >= 1 && ndig > ndig_after_slash), "an accepted fraction has digits on both sides");
+        VASSERT(read_as_decimal(), "GMP reads the converted text as decimal");
+        VASSERT(!cap_has_den || cap_d != 0, "denominator handed to GMP is not zero");
+        check_scratch();
     } else {
         VWITNESS("rejected");
         VASSERT(ncap == 0, "a rejected literal is not converted");
@@ -131,7 +158,7 @@ extern "C" void h_is_int_string() {
     bool r = isIntString(s);
     int p = (len > 0 && s[0] == '-') ? 1 : 0;
     bool ref = len > p;         // SMT-LIB numeral with optional API minus sign: [-] D+
-    for (int i = p; i < len; i++) if (!isdig(s[i])) ref = false;
+    for (int i = p; i < MAXLEN; i++) if (i < len && !isdig(s[i])) ref = false;
     VASSERT(r == ref, "isIntString accepts exactly [-]digit+");
     if (r) { VWITNESS("int-accepted"); } else { VWITNESS("int-rejected"); }
 }
@@ -140,10 +167,10 @@ extern "C" void h_is_real_string() {
     char s[MAXLEN + 1];
     int len = symbolic_string(s);
     bool r = isRealString(s);
-    // reference: [-] (D+ | D* . D+ | D+ . D+) [ / same ]   -- what the solver documents as its literal forms
+    // reference: [-] (D+ | D* . D+) [ / (D+ | D* . D+) ]
     int p = (len > 0 && s[0] == '-') ? 1 : 0;
     int part = 0, nd_before = 0, nd_after = 0; bool dot = false, ok = len > p;
-    for (int i = p; i < len && ok; i++) {
+    for (int i = p; i < MAXLEN; i++) if (i < len && ok) {
         char c = s[i];
         if (isdig(c)) { if (dot) nd_after++; else nd_before++; }
         else if (c == '.') { if (dot) ok = false; dot = true; }
